@@ -69,3 +69,91 @@ Definition model_vs_spec (c : dcase) : bool :=
     && list_eqb ucall_sim (s_ucalls s) (trace_ucalls tr)
   | _ => false
   end.
+
+(** ** C06: script-independent structure checks on the top-level container *)
+Definition arity_ok (c : dcase) (vs : list value) (n : N) : bool :=
+  if N.eqb (N.of_nat (List.length vs)) n then true
+  else match dc_res c, dc_trace c with
+       | RErr 0%N, [CError 0%N None (BadSequenceLen a m) Origin] => list_eqb value_eqb a vs && N.eqb m n
+       | _, _ => false
+       end.
+
+Definition mon_c06 (c : dcase) : bool :=
+  match dc_ty c with
+  | Accept t =>
+    match t, dc_val c with
+    | TArray n _, VSeq vs => arity_ok c vs n
+    | TTuple2 _ _, VSeq vs => arity_ok c vs 2
+    | TTuple3 _ _ _, VSeq vs => arity_ok c vs 3
+    | TOption _, VNull => match dc_res c, dc_trace c with ROk ONone, [] => true | _, _ => false end
+    | TMap kp _ _, VMap ms =>
+      if existsb (fun kv => match parse_key kp (fst kv) with inr _ => true | inl _ => false end) ms
+      then match dc_res c with RErr _ => true | _ => false end else true
+    | TVec _, VSeq vs =>
+      match dc_res c with ROk (OList os) => Nat.eqb (List.length os) (List.length vs) | ROk _ => false | _ => true end
+    | _, _ => true
+    end
+  | _ => false
+  end.
+
+(** equality of values up to the order of object members (at any depth) *)
+Fixpoint value_sim (a b : value) : bool :=
+  match a, b with
+  | VSeq x, VSeq y =>
+    (fix go (x y : list value) : bool :=
+       match x, y with
+       | [], [] => true
+       | u :: x', w :: y' => value_sim u w && go x' y'
+       | _, _ => false
+       end) x y
+  | VMap x, VMap y =>
+    Nat.eqb (List.length x) (List.length y)
+    && (fix all (x : list (string * value)) : bool :=
+          match x with
+          | [] => true
+          | (k, u) :: x' => existsb (fun p => String.eqb k (fst p) && value_sim u (snd p)) y && all x'
+          end) x
+  | _, _ => value_eqb a b
+  end.
+
+Definition ekind_sim (a b : ekind) : bool :=
+  match a, b with
+  | IncorrectValueKind v l, IncorrectValueKind v' l' => value_sim v v' && list_eqb vkind_eqb l l'
+  | BadSequenceLen v n, BadSequenceLen v' n' => list_eqb value_sim v v' && N.eqb n n'
+  | _, _ => ekind_eqb a b
+  end.
+
+Definition fault_sim_perm (a b : fault) : bool :=
+  match a, b with
+  | FKind k l, FKind k' l' => ekind_sim k k' && vpr_eqb l l'
+  | _, _ => fault_sim a b
+  end.
+
+(** ** C15 / C09 on a pair of runs of the same type (both keep-going) *)
+Definition same_outcome_up_to_order (p : dcase * dcase) : bool :=
+  let (a, b) := p in
+  match dc_res a, dc_res b with
+  | ROk x, ROk y => out_sim x y
+  | RErr _, RErr _ => true
+  | _, _ => false
+  end
+  && multiset_eq fault_sim_perm (trace_faults (dc_trace a)) (trace_faults (dc_trace b))
+  && multiset_eq ucall_sim (trace_ucalls (dc_trace a)) (trace_ucalls (dc_trace b)).
+
+Definition mon_c15 := same_outcome_up_to_order.
+
+(** C09 (ignored): unknown keys without deny_unknown_fields change nothing at all *)
+Definition mon_c09_ignored (p : dcase * dcase) : bool :=
+  let (a, b) := p in
+  res_sim (dc_res a) (dc_res b) && list_eqb call_sim (dc_trace a) (dc_trace b).
+
+Definition corr_pair (p : dcase * dcase) : bool := corr_full (fst p) && corr_full (snd p).
+
+(** the specification itself is insensitive to member order (evaluated on the same pairs) *)
+Definition spec_order_insensitive (p : dcase * dcase) : bool :=
+  let (a, b) := p in
+  match spec_of a, spec_of b with
+  | Some sa, Some sb =>
+    opt_eqb out_sim (s_out sa) (s_out sb) && multiset_eq fault_sim_perm (s_faults sa) (s_faults sb)
+  | _, _ => false
+  end.
